@@ -24,7 +24,7 @@ ASSUMPTIONS = ['only index and value forms used by upstream tests/docstrings are
                'reads that leave every selected row non-empty',
                'row reads are views by design, so write-through is exercised on a row fetched after the last structural change',
                'values keep the dtype of the array (no float written into an integer array)']
-REACH_EXPECTED = ['op_copied_object', 'rows_traded_lengths', 'op_stale_mask', 'mask_of_another_layout', 'append_wider_dtype', 'op_iterate_mutating', 'op_rejected_write', 'op_compare_lt', 'op_compare_ne', 'op_truediv', 'op_floordiv', 'op_mod', 'op_pow', 'op_mod_reflected', 'op_bitwise', 'op_reads2d', 'op_writes2d', 'op_helpers', 'construct_from_2d_block', 'row_assign_wider_dtype', 'introw_general_slice', 'op_rowslice_col', 'out_of_row_write_rejected', 'op_elem', 'op_row_same', 'op_row_newlen', 'op_introw_slice', 'op_slice2d', 'op_fancy', 'op_fancy_int', 'op_mask',
+REACH_EXPECTED = ['nan_in_the_data', 'op_bitwise_mask_with_ints', 'negative_column_in_a_list', 'op_copied_object', 'rows_traded_lengths', 'op_stale_mask', 'mask_of_another_layout', 'append_wider_dtype', 'op_iterate_mutating', 'op_rejected_write', 'op_compare_lt', 'op_compare_ne', 'op_truediv', 'op_floordiv', 'op_mod', 'op_pow', 'op_mod_reflected', 'op_bitwise', 'op_reads2d', 'op_writes2d', 'op_helpers', 'construct_from_2d_block', 'row_assign_wider_dtype', 'introw_general_slice', 'op_rowslice_col', 'out_of_row_write_rejected', 'op_elem', 'op_row_same', 'op_row_newlen', 'op_introw_slice', 'op_slice2d', 'op_fancy', 'op_fancy_int', 'op_mask',
                   'op_mask_empty', 'op_rowblock', 'op_append_rows', 'op_append_ra', 'op_aug_scalar', 'op_aug_ragged', 'op_binary',
                   'env_source_mutated', 'env_lengths_mutated', 'env_result_mutated', 'env_write_through', 'env_selection_mutated', 'rect_to_ragged', 'ragged_to_rect', 'multidim_elements',
                   'out_of_row_rejected']
@@ -45,17 +45,23 @@ class Vals:
         return v.reshape(shape) if shape != () else v[0]
 
 
+def _same_values(a, b):
+    if a.dtype.kind == 'f' and b.dtype.kind == 'f':
+        return bool(np.array_equal(a, b, equal_nan=True))       # a NaN in a cell is a value like any other
+    return bool(np.array_equal(a, b))
+
+
 def eq(a, b):
     a = np.asarray(a)
     b = np.asarray(b)
-    return a.shape == b.shape and a.dtype == b.dtype and np.array_equal(a, b)
+    return a.shape == b.shape and a.dtype == b.dtype and _same_values(a, b)
 
 
 def eqv(a, b):
     """values and shape only"""
     a = np.asarray(a)
     b = np.asarray(b)
-    return a.shape == b.shape and np.array_equal(a, b)
+    return a.shape == b.shape and _same_values(a, b)
 
 
 class Machine:
@@ -202,10 +208,10 @@ class Machine:
             sel = self.sut(a.__getitem__, m) if bool(np.any(flat > thr)) else None
             if sel is not None and not eqv(sel, flat[flat > thr]):
                 self.bad('mask_read_differs', '%s: a[a > %s] = %s, model %s' % (where, thr, np.asarray(sel).tolist(), flat[flat > thr].tolist()))
-            if a.max() != flat.max() or a.min() != flat.min():
+            if not eqv(a.max(), flat.max()) or not eqv(a.min(), flat.min()):
                 self.bad('reduction_differs', '%s: min/max' % where)
-            if not bool((a == a).all()):
-                self.bad('comparison_differs', '%s: a == a is not all true' % where)
+            if bool((a == a).all()) != bool(np.all(flat == flat)):
+                self.bad('comparison_differs', '%s: (a == a).all() is %s' % (where, bool((a == a).all())))
         self.ctx.steps += 1
 
     def cmp_rows(self, got, want, what):
@@ -235,6 +241,9 @@ class Machine:
             i = t.draw(n)
             j = t.draw(lens[i])
             v = V.take(())
+            if self.dtype == 'float64' and self.edim is None and t.flag(1, 10):
+                v = np.float64('nan')          # a missing value: unordered under every comparison, equal to nothing
+                self.ctx.hit('nan_in_the_data')
             ii = i - n if t.flag(1, 4) else i
             jj = j - lens[i] if t.flag(1, 4) else j
             self.hist.append(('elem', ii, jj))
@@ -525,7 +534,23 @@ class Machine:
             name = t.choice(('and_', 'or_', 'xor'))
             f = getattr(O, name)
             flat = np.concatenate(rows)
-            if self.dtype == 'int64' and t.flag():
+            if self.dtype == 'int64' and t.flag(1, 3):
+                # a comparison result on the left, integers on the right: still the element type's own operator
+                thr0 = flat[t.draw(len(flat))]
+                m0 = self.sut(O.gt, a, thr0)
+                if t.flag():
+                    other = t.irange(1, 7)
+                    res = self.sut(f, m0, other)
+                    want = [f(r > thr0, other) for r in rows]
+                else:
+                    res = self.sut(f, m0, a)
+                    want = [f(r > thr0, r) for r in rows]
+                self.hist.append(('bitwise', name, 'mask-with-ints'))
+                self.cmp_rows(res, want, '(a > x) %s integers' % name)
+                if np.asarray(res[0]).dtype != want[0].dtype:
+                    self.bad('dtype_changed', '(a > x) %s integers has element type %s, model %s' % (name, np.asarray(res[0]).dtype, want[0].dtype))
+                self.ctx.hit('op_bitwise_mask_with_ints')
+            elif self.dtype == 'int64' and t.flag():
                 other = t.irange(1, 7)
                 self.hist.append(('bitwise', name, 'int', other))
                 res = self.sut(f, a, other)
@@ -546,6 +571,8 @@ class Machine:
             if kind == 0:
                 sel = list(range(lo, hi))
                 j = t.draw(min(lens[i] for i in sel))
+                if t.flag(1, 3):
+                    j = j - min(lens[i] for i in sel)          # counted from the end of each row
                 self.hist.append(('reads2d', 'rowslice,int', lo, hi, j))
                 got = self.sut(a.__getitem__, (slice(lo, hi), j))
                 self.cmp_rows(got, [rows[i][[j]] for i in sel], 'a[%d:%d, %d]' % (lo, hi, j))
@@ -553,6 +580,10 @@ class Machine:
                 sel = list(range(lo, hi))
                 m = min(lens[i] for i in sel)
                 cols = [t.draw(m) for _ in range(t.irange(1, 3))]
+                if t.flag(1, 3):
+                    k9 = t.draw(len(cols))
+                    cols[k9] = cols[k9] - m                    # one column counted from the end of each row
+                    self.ctx.hit('negative_column_in_a_list')
                 self.hist.append(('reads2d', 'rowslice,list', lo, hi, cols))
                 got = self.sut(a.__getitem__, (slice(lo, hi), cols if t.flag() else np.array(cols)))
                 self.cmp_rows(got, [rows[i][cols] for i in sel], 'a[%d:%d, %s]' % (lo, hi, cols))
@@ -573,6 +604,8 @@ class Machine:
                 sel = list(range(lo, hi))
                 m = min(lens[i] for i in sel)
                 cols = sorted({t.draw(m) for _ in range(t.irange(1, 3))})
+                if t.flag(1, 3) and len(set(lens[i] for i in sel)) == 1:
+                    cols = [c - m for c in cols]               # counted from the end (rows of one length: no two names for one cell)
                 scalar = t.flag()
                 v = V.take(()) if scalar else V.take((len(sel), len(cols)))
                 self.hist.append(('writes2d', 'rowslice,list', lo, hi, cols, scalar))
